@@ -2,6 +2,7 @@ package c03
 
 import (
 	"fmt"
+	"os"
 	"strings"
 	"sync"
 	"testing"
@@ -14,7 +15,7 @@ const oracleText = "oracle per case (the sequence is played twice against one he
 	"and it ends AS an error response or a closed connection: if the client's HTTP parser sees a 2xx response that is framed as complete (Content-Length fully delivered, or chunked with its terminating chunk; a gzip content coding is decoded first, a damaged gzip stream counts as visibly incomplete) its body must be the complete body of a response a backend was scripted to give to that request (GOOD's answer, FAULTY's when its script runs to the end, or the fallback 200 given to a request the proxy's transport re-sent) - for a reset, short or stalled backend body it cannot be (not judged: HEAD, 101, client-abort steps, bodies delimited by the end of the connection); " +
 	"(ii) afterwards, polling from fresh client addresses, within 8 s (nominal 4 s, measured time is a class label) a request is answered 200 by a backend and the next 5 requests succeed too (a failure in between restarts the count: the bookkeeping of a faulted request whose client has already gone may still open the breaker or eject a backend inside the window), and /v1/backends stops reporting an ejected backend within the same 8 s; " +
 	"(iii) the process is alive, its log has no panic / fatal error / goroutine trace, /v1/backends shows every active_connections at 0 within 3 s; " +
-	"(iv) the open-fd count is back at <= baseline+20 and the second run does not end more than 2 fds above the first." + afterText
+	"(iv) the open-fd count is back at <= baseline+20 and the second run does not end more than 2 fds above the first." + afterText + outageText
 
 // workers is the number of labs (helios process + 2 raw backends) a shard runs in parallel.
 func workers() int { return 12 } // per sub-check (the request-kind table: 3x); the shard-wide bound is labSlots (run.go)
@@ -134,7 +135,23 @@ func minimise(t *testing.T, c Case, v string) (Case, Result, bool) {
 				c = cand
 			}
 		}
-		if kindOf(c.Steps[i].Kind) != "get" {
+		if c.Steps[i].Upload > 0 && !c.Steps[i].Unread { // with Unread the size of the body may be the point: kept
+			cand := c
+			cand.Steps = append([]Step(nil), c.Steps...)
+			cand.Steps[i].Upload = 0
+			if try(cand) {
+				c = cand
+			}
+		}
+		if c.Steps[i].Unread {
+			cand := c
+			cand.Steps = append([]Step(nil), c.Steps...)
+			cand.Steps[i].Unread = false
+			if try(cand) {
+				c = cand
+			}
+		}
+		if kindOf(c.Steps[i].Kind) != "get" && !(bodyKind(c.Steps[i].Kind) && (c.Steps[i].Upload > 0 || c.Steps[i].Unread)) {
 			cand := c
 			cand.Steps = append([]Step(nil), c.Steps...)
 			cand.Steps[i].Kind = ""
@@ -212,6 +229,29 @@ func judge(t *testing.T, name string, sub *lab.SubCheck, cases []Case, res []Res
 				continue
 			}
 			labels = append(labels, "fault="+s.Fault, "kind="+kindOf(s.Kind))
+			if s.Fault == Outage {
+				labels = append(labels, "outage-down="+map[string]string{"": "faulty"}[s.Down]+s.Down, "outage-requests:"+sizeClass(s.Requests))
+				if s.Concurrent > 1 {
+					labels = append(labels, "outage-in-volleys")
+				}
+				if c.Cfg.Breaker == 0 && (!c.Cfg.Passive || c.Cfg.PassiveThreshold >= 50) {
+					labels = append(labels, "outage-with-nothing-that-ejects-or-opens")
+				}
+				conc = conc || s.Concurrent > 1
+				continue
+			}
+			if bodyKind(s.Kind) && s.Fault != "client-abort-upload" {
+				labels = append(labels, fmt.Sprintf("upload=%dB", uploadSize(s.Upload)))
+				if uploadSize(s.Upload) > socketBuffers() {
+					labels = append(labels, "upload-larger-than-the-socket-buffers-of-a-connection")
+				}
+				if s.Unread && beforeHead(s.Fault) {
+					labels = append(labels, "backend-does-not-read-the-upload", "backend-does-not-read-the-upload:"+s.Fault)
+					if uploadSize(s.Upload) > socketBuffers() {
+						labels = append(labels, "unread-upload-larger-than-the-socket-buffers")
+					}
+				}
+			}
 			if midBody(s.Fault) {
 				labels = append(labels, "mid-body-fault:"+framingOf(s.Framing))
 				if c.Cfg.Plugins {
@@ -265,6 +305,9 @@ func judge(t *testing.T, name string, sub *lab.SubCheck, cases []Case, res []Res
 				labels = append(labels, "mode=volleys")
 			}
 		}
+		for _, n := range r.Notes {
+			sub.Note(fmt.Sprintf("case %s: %s", tail(c.String(), 300), tail(n, 700)))
+		}
 		for _, n := range r.Reruns {
 			sub.Note(fmt.Sprintf("case %s re-run because the environment canary recorded a stall: %s", c, tail(n, 700)))
 		}
@@ -275,6 +318,12 @@ func judge(t *testing.T, name string, sub *lab.SubCheck, cases []Case, res []Res
 			}
 		}
 		nontrivial := c.Nontrivial()
+		if name == "outages-enumerated" || name == "uploads-to-a-backend-that-stops-reading-enumerated" {
+			nontrivial = false // the rule of these sub-checks: the fault reached its target
+			for _, l := range r.Labels {
+				nontrivial = nontrivial || l == "fault-delivered"
+			}
+		}
 		if name == "request-kinds-enumerated" && len(c.Steps) == 1 {
 			nontrivial = kindOf(c.Steps[0].Kind) != "get" // the rule of that sub-check
 		}
@@ -916,7 +965,182 @@ func TestC03FlakyLoad(t *testing.T) {
 	judge(t, name, sub, cases, res, replay)
 }
 
+// sizeClass names the length class of an outage.
+func sizeClass(n int) string {
+	switch {
+	case n <= 3:
+		return "1-3"
+	case n <= 20:
+		return "4-20"
+	case n <= 60:
+		return "21-60"
+	case n <= 150:
+		return "61-150"
+	}
+	return ">150"
+}
+
+// socketBuffers is an upper estimate of what the kernel buffers of ONE loopback connection take when the
+// receiver does not read (sender: net.ipv4.tcp_wmem max; receiver: net.ipv4.tcp_rmem default, which only
+// grows while the receiver reads), plus the user-space buffers on the way (64 KiB + 32 KiB). Used for
+// class labels only; 4 MiB + 128 KiB + 96 KiB where /proc cannot be read.
+func socketBuffers() int {
+	socketBuffersOnce.Do(func() {
+		field := func(path string, i, def int) int {
+			b, err := os.ReadFile(path)
+			if err != nil {
+				return def
+			}
+			var v [3]int
+			if n, _ := fmt.Sscan(string(b), &v[0], &v[1], &v[2]); n != 3 || v[i] <= 0 {
+				return def
+			}
+			return v[i]
+		}
+		socketBuffersV = field("/proc/sys/net/ipv4/tcp_wmem", 2, 4<<20) + field("/proc/sys/net/ipv4/tcp_rmem", 1, 128<<10) + 96<<10
+	})
+	return socketBuffersV
+}
+
+var (
+	socketBuffersOnce sync.Once
+	socketBuffersV    int
+)
+
+// outageCases is the complete table length of the outage x who is down x whether anything in the
+// configuration ejects a failing backend / opens (quick: the volley width is a function of seed and table
+// index; thorough: x all three widths).
+func outageCases() []Case {
+	var out []Case
+	i := 0
+	lengths := []int{3, 20, 80, 300}
+	if lab.Thorough() {
+		lengths = []int{2, 12, 40, 120, 300, 600}
+	}
+	for _, n := range lengths {
+		for _, down := range Downs {
+			for _, ejecting := range []bool{false, true} {
+				widths := []int{[]int{0, 4, 16}[(mix(lab.Seed()*1000721+uint64(i))>>17)%3]}
+				if lab.Thorough() {
+					widths = []int{0, 4, 16}
+				}
+				for _, width := range widths {
+					h := mix(lab.Seed()*1000723 + uint64(i))
+					c := Case{Cfg: Cfg{Strategy: Strategies[(uint64(i)+lab.Seed())%5], FaultyFirst: h&1 == 1, Limiter: h&2 != 0, Active: h&8 != 0, Plugins: h&16 != 0,
+						Idle: []int{1, 5}[(h>>21)&1], Handler: 1 + int((h>>12)%3), BackendRead: 1 + int((h>>16)%3)}}
+					if ejecting {
+						// passive checks with a threshold the outage reaches and / or the circuit breaker
+						switch (h >> 26) % 3 {
+						case 0:
+							c.Cfg.Passive, c.Cfg.PassiveThreshold = true, []int{0, 3}[(h>>28)&1]
+						case 1:
+							c.Cfg.Breaker, c.Cfg.BreakerInterval = 2+int((h>>6)%5), []int{1, 60}[(h>>20)&1]
+						default:
+							c.Cfg.Passive = true
+							c.Cfg.Breaker, c.Cfg.BreakerInterval = 2+int((h>>6)%5), []int{1, 60}[(h>>20)&1]
+						}
+					} else if (h>>26)&1 == 1 {
+						c.Cfg.Passive, c.Cfg.PassiveThreshold = true, 1000 // counts failures, never ejects
+					} else {
+						c.Cfg.PassiveTimeoutOmitted = (h>>34)&1 == 1
+					}
+					if c.Cfg.Strategy == "least_connections" && width == 0 {
+						c.Cfg.FaultyFirst = true // an idle least_connections pool always picks the backend listed first
+					}
+					kind := []string{"get", "get", "post-cl", "head", "expect-continue"}[(uint64(i)/2+lab.Seed())%5]
+					c.Steps = []Step{Step{Fault: Outage, Requests: n, Down: down, Concurrent: width, Kind: kind}.affordable()}
+					out = append(out, dress(c, 1000727, i))
+					i++
+				}
+			}
+		}
+	}
+	return out
+}
+
+func TestC03Outages(t *testing.T) {
+	t.Parallel()
+	const name = "outages-enumerated"
+	sub := lab.Sub(name, "complete enumeration: LENGTH of an outage {3, 20, 80, 300 requests sent while the backend is down; thorough: 2, 12, 40, 120, 300, 600} x who is down {FAULTY alone (GOOD serves), both backends (the whole site), rolling restart: FAULTY for that many requests, then - FAULTY being back - GOOD} "+
+		"x whether anything ejects a failing backend or opens {nothing: passive checks off (unhealthy_timeout written or left out) or on with unhealthy_threshold 1000, circuit breaker off - every request routed to a backend that is down is a failed connection attempt; "+
+		"passive checks with unhealthy_threshold 2-3 and / or the circuit breaker with failure_threshold 2-6} (quick: the requests of the outage are sent one by one or in synchronised volleys of 4 or 16 as a function of seed and table index; thorough: x all three); "+
+		"the backend is REALLY down: nothing listens on its port, the kernel refuses the proxy's connect() (ECONNREFUSED), established connections are reset, the port stays reserved by a bound, non-listening socket of the harness, then the backend listens again on the same address; "+
+		"request kind (GET, POST, HEAD, and - in outages of up to 12 requests, since each such request lasts until the 1 s read timeout - POST with Expect: 100-continue, else a chunked POST), strategy (least_connections with one-by-one traffic: FAULTY listed first), limiter, active checks, plugin chain, backend order, timeouts: pure function of seed and table index; everything twice per helios process, so the failed attempts of the second run add to those of the first; "+oracleText+
+		"; non-trivial = a request of the outage failed (class fault-delivered)")
+	sub.NontrivialFloor(0.80)
+	sub.Floor("fault-delivered", 0.80)
+	sub.Floor("failed-requests-of-all-outages-so-far>=50", 0.25) // the long outages where nothing ejects or opens, and those of both backends
+	runTable(t, name, sub, outageCases, workers())
+}
+
+// uploadCases is the complete table fault before the response head x whether the backend reads the request
+// body x size class of the body (quick: the request kind rotates over the three that carry a body, except
+// that MiB-sized bodies the backend does not read are played with all three; thorough: x all three).
+func uploadCases() []Case {
+	var out []Case
+	i := 0
+	for _, f := range Faults {
+		if !beforeHead(f) {
+			continue
+		}
+		for _, unread := range []bool{false, true} {
+			for up := range UploadSizes {
+				if !unread && up == 0 {
+					continue // a 2000-byte body that the backend reads: the rows of request-kinds-enumerated
+				}
+				// the three kinds differ in who sends the body when (at once with its length known; at once in chunks;
+				// only after an interim response or a pause - the proxy's transport likewise waits up to 1 s for the
+				// backend's 100 Continue before it forwards the body): crossed where that matters most - a body of MiB
+				// size that the backend does not read - and rotating elsewhere
+				kinds := []string{[]string{"post-cl", "post-chunked", "expect-continue"}[(uint64(i)+lab.Seed())%3]}
+				if lab.Thorough() || (unread && up >= 2) {
+					kinds = []string{"post-cl", "post-chunked", "expect-continue"}
+				}
+				for _, kind := range kinds {
+					h := mix(lab.Seed()*1000733 + uint64(i))
+					c := Case{Cfg: Cfg{Strategy: Strategies[(uint64(i)+lab.Seed())%5], FaultyFirst: h&1 == 1, Limiter: h&2 != 0, Passive: h&4 != 0, PassiveTimeoutOmitted: h&4 == 0 && (h>>33)&1 == 1, Active: h&8 != 0,
+						// the generated size_limit plugin refuses request bodies above 1 MiB itself: behind it only the smaller classes reach a backend
+						Plugins: h&16 != 0 && UploadSizes[up] <= 1<<20,
+						Idle:    []int{1, 5}[(h>>21)&1], Handler: 1 + int((h>>12)%3), BackendRead: 1 + int((h>>16)%3)}}
+					if h&32 != 0 {
+						c.Cfg.Breaker = 2 + int((h>>6)%3)
+						c.Cfg.BreakerInterval = []int{1, 60}[(h>>20)&1]
+					}
+					s := Step{Fault: f, Kind: kind, Upload: up, Unread: unread, Concurrent: 2 + int((h>>8)%3)}
+					if (h>>26)%4 == 0 {
+						s.Concurrent, s.N, s.Both = 0, 2, true // two requests one after the other, both backends play the fault
+					}
+					c.Steps = []Step{s}
+					out = append(out, dress(c, 1000739, i))
+					i++
+				}
+			}
+		}
+	}
+	return out
+}
+
+func TestC03Uploads(t *testing.T) {
+	t.Parallel()
+	const name = "uploads-to-a-backend-that-stops-reading-enumerated"
+	sub := lab.Sub(name, "complete enumeration: backend fault before the response head {refuse, hang-headers, garbage, 5xx} x the backend {reads the whole request body before it misbehaves; does NOT read it: hang-headers = a frozen process that from the request head on takes nothing off the wire and writes nothing while the connection stays open, "+
+		"refuse / garbage / 5xx = reset / garbage / the 5xx response from the request head alone, then close} x size of the request body {2000 bytes (only with a backend that does not read: the other half is part of request-kinds-enumerated), 200 KiB, 3 MiB, 8 MiB: below, within and beyond what the socket buffers of one loopback connection take from a sender whose peer does not read (4 MiB here; class upload-larger-than-the-socket-buffers-of-a-connection from /proc/sys/net/ipv4)} "+
+		"(quick: the request kind rotates over POST with Content-Length / POST chunked / POST with Expect: 100-continue by table index, but bodies of 3 and 8 MiB that the backend does not read are played with all three kinds; thorough: x all three everywhere); one fault step per case: a concurrent burst of 2-4 requests, 1 in 4 two sequential requests with both backends playing the fault; strategy, breaker, limiter, passive/active checks, backend order, timeouts: pure function of seed and table index, "+
+		"the plugin chain (whose size_limit refuses request bodies above 1 MiB itself) only with the two smaller sizes; the client writes its whole body (a write error is not an end by itself) and then waits for the end of the call; "+oracleText+
+		"; non-trivial = the fault reached its target (class fault-delivered)")
+	sub.NontrivialFloor(0.80)
+	sub.Floor("fault-delivered", 0.80)
+	sub.Floor("unread-upload-larger-than-the-socket-buffers", 0.10) // quick: 12 of the 44 rows (thorough: 12 of 84)
+	runTable(t, name, sub, uploadCases, workers())
+}
+
+const outageText = " OUTAGE steps (the backend is really down: connect() refused by the kernel, for 1-300 requests, FAULTY / both / one after the other): clause (i) for every request sent meanwhile; then, every backend being back on its address and answering everything with 200, nothing is sent for the time the configuration documents for an ejected backend / an open breaker to come back (0-2 s) + 0.3 s, " +
+	"and after that requests of the recovery-probe shapes sent one after the other from fresh client addresses must succeed normally: 6 in a row answered 200 by a backend with exactly its body, in one of 4 rounds 1.3 s apart (a round ends at the first request that is not) - counted, not timed: a 502 at once and a 502 after the handler timeout are the same failure; else 'permanently degraded after an outage'. " +
+	"REQUEST BODIES of the kinds that carry one come in 4 size classes (2000 bytes, 200 KiB, 3 MiB, 8 MiB), and for refuse / hang-headers / garbage / 5xx the FAULTY backend either reads the body before it misbehaves or does not read it at all (hang-headers then is a frozen backend: the proxy's write towards it blocks once the socket buffers are full); clause (i) unchanged"
+
 func assumptions() {
+	lab.Assume("outage steps: a backend that is DOWN is a raw backend whose listening socket is closed and whose established connections are reset, while a bound, non-listening SO_REUSEPORT socket of the harness keeps the port reserved (Linux: connect() then fails with ECONNREFUSED, nobody else can bind the port or get it as a source port); 'back' = a new listening socket on the same address; probed on this kernel. " +
+		"A frozen backend (hang-headers without reading the upload) is a raw backend that, once the request head has arrived, neither reads from nor writes to the connection until the step is over; how much of the request body the kernel then buffers is the kernel's matter (net.ipv4.tcp_wmem / tcp_rmem), the 8 MiB class is beyond it on this machine (class label from /proc)")
 	lab.Assume("L3 binary lab: the real helios executable built from the current tree, loopback TCP only; the FAULTY/GOOD backends are the harness's raw scripted TCP servers, 'refuse' = accept-then-reset of every new connection plus reset of requests arriving on pooled connections (a closed port is not used, it could be re-bound by another process)")
 	lab.Assume("Helios picks the backend: every step is a burst carrying the fault script on FAULTY and a 200 script on GOOD; under the ip_hash strategies half of each burst uses client addresses observed (warm-up) to map to FAULTY; whether the fault reached its target is measured (class fault-delivered, floor)")
 	lab.Assume("wall-clock limits are the oracle here because the statement is about termination: 12-16 s per faulted call, derived from the configured timeouts of the case (normal: <= max(handler, backend_read, write)+0.2 s <= 3.2 s), 20 s no-progress = wedged, 8 s recovery watchdog (normal: <= 1.1 s); /v1/backends is trusted for active_connections and the healthy flag; fd counts are read from /proc/<pid>/fd with backend_idle 1 s so that pooled connections can close")
